@@ -219,6 +219,10 @@ def _aux_pool(S, cfg, pool, W, main_spec):
         comp[1][1] = comp[1][1] + 0.5
     add('comp', 'C0', {'kind': 'nf', 'val': ['dict', S.shuffled(comp)]})
     add('gcomp', 'G0', {'kind': 'nf', 'val': ['dict', [['Hex', S.randint(1, 3)], ['HexNAc', S.randint(0, 2)]]]})
+    # the same two objects in their documented string form (what a str argument is parsed into, and where, is the
+    # library's business - the answers must be the same as for the dictionaries, whatever was called before)
+    add('compstr', 'CS0', {'kind': 'nf', 'val': ''.join(f"{k}{v}" for k, v in comp if v != 0)})
+    add('gcompstr', 'GS0', {'kind': 'nf', 'val': ''.join(f"{k}{v}" for k, v in pool['G0']['val'][1] if v != 0)})
     # modification dict for add_mods
     md = []
     for key in S.sample(['nterm', 'cterm', 'labile', 'unknown', 'isotope', 'static', 'charge', 'intervals',
@@ -273,6 +277,10 @@ def _aux_pool(S, cfg, pool, W, main_spec):
     if S.coin(0.5):
         mzs = S.shuffled(mzs)
     add('mz', 'Z0', {'kind': 'nf', 'val': nf_list(mzs)})
+    # a second m/z list in DESCENDING order (what fragment(..., return_type='mz') gives for a b-series), slightly
+    # off the first one so that tolerance windows are hit from both sides
+    add('mz', 'Z1', {'kind': 'nf', 'val': nf_list(sorted((round(m + S.pick([-0.3, -0.01, 0.0, 0.01, 0.3]), 4)
+                                                          for m in mzs[:S.randint(2, len(mzs))]), reverse=True))})
     add('inten', 'I0', {'kind': 'nf', 'val': nf_list([float(S.randint(1, 100)) for _ in mzs])})
     # sub-peptides of the main annotation
     n = len(seq)
@@ -325,7 +333,7 @@ def gen_plan(S, index, tier):
     pair_runs = npairs * pair_specs
     header = {'property': ID, 'seed': S.seed, 'index': index, 'tier': tier}
     if index < pair_runs:
-        return _gen_pair_plan(S, index, header, opnames)
+        return _gen_pair_plan(S, index, header, opnames, tier)
     sweep_runs = len(opnames) * len(world.FIXED_SPECS) * len(POISON_SPOTS)
     if index < pair_runs + sweep_runs:
         return _gen_poison_plan(S, index - pair_runs, header, opnames)
@@ -357,17 +365,20 @@ def gen_plan(S, index, tier):
 LONG_SKIP = set()       # ops whose cost on a protein-sized annotation is out of proportion (filled from measurements)
 
 
-def _long_spec(S):
+def _long_spec(S, light=False):
     """a protein-sized annotation: 520-1100 residues, a handful of modifications of every kind that fragmentation-free
     queries accept"""
     n = S.pick([520, 640, 1100])
+    if light:
+        n = 520         # ops whose cost per ion grows with the length (fragmentation of a labelled protein is cubic)
     seq = ''.join(S.pick(SP.STD) for _ in range(n))
     internal = {}
     for _ in range(S.randint(2, 5)):
         internal[str(S.randint(0, n - 1))] = [[S.pick(['Phospho', 'Oxidation', 15.9949, 'Methyl']), 1]]
     internal[str(n - 1)] = [['Methyl', 1]]
     return {'seq': seq, 'labile': [['Glycan:Hex', 1]] if S.coin(0.5) else [], 'static': ['[57.021464]@C'] if S.coin(0.6) else [],
-            'isotope': ['13C'] if S.coin(0.3) else [], 'unknown': [], 'nterm': [['Acetyl', 1]] if S.coin(0.6) else [],
+            'isotope': ['13C'] if S.coin(0.3) and not light else [], 'unknown': [],
+            'nterm': [['Acetyl', 1]] if S.coin(0.6) else [],
             'cterm': [['Amidated', 1]] if S.coin(0.4) else [], 'internal': internal, 'intervals': [],
             'charge': S.pick([None, 2, 3]), 'adducts': None}
 
@@ -378,7 +389,7 @@ def _gen_long_plan(S, k, header, opnames):
     second call of the same op (history) and, in a cold process, so that first-use state is being built"""
     name = opnames[k]
     cfg = SP.swarm_cfg(S)
-    sp = _long_spec(S)
+    sp = _long_spec(S, light='ragment' in name or 'fmatch' in name or 'match' in name)
     short = copy.deepcopy(world.FIXED_SPECS[3])
     pool, W = _mk_world(S, cfg, [sp, short], ['parse', 'parse'], 'quick')
     header.update({'mode': 'long', 'op': name, 'clients': 1, 'faults': ['restart'], 'cold': True, 'len': len(sp['seq'])})
@@ -391,10 +402,26 @@ def _gen_long_plan(S, k, header, opnames):
         args = args or o.gen(S, W)
     if args is None:
         return {'header': header, 'pool': pool, 'events': events}
-    if 'size' not in args:
+    if 'size' not in args and 'max_mods' not in args:
         for an, av in args.items():
             if isinstance(av, dict) and av.get('h') in ('A1', 'S0') and an in ('sequence', 'self', 'other'):
                 args[an] = {'h': 'A0'}
+    if 'ion_types' in args:
+        # cost: one terminal series, one charge, no isotopes, at most one loss per ion (internal ions are quadratic
+        # in the length, and every extra setting multiplies a list of a thousand ions)
+        it = args['ion_types'].get('v')
+        first = (it if isinstance(it, str) else (it or ['b'])[0]) if it is not None else 'b'
+        args['ion_types'] = {'v': first if first in 'abcxyz' and len(first) == 1 else 'b'}
+        args['charges'] = {'v': 1}
+        args['isotopes'] = {'v': 0}
+        if 'max_losses' in args:
+            args['max_losses'] = {'v': 1}
+        if 'losses' in args:
+            args['losses'] = {'v': None}
+        for flag in ('water_loss', 'ammonia_loss'):
+            if flag in args:
+                args[flag] = {'v': False}
+    header['soft_timeout'] = 60
     for rep in range(2):
         rh = f'R{rep}'
         events.append({'act': 'call', 'client': 0, 'op': name, 'args': copy.deepcopy(args), 'out': rh,
@@ -641,7 +668,7 @@ def _gen_poison_plan(S, k, header, opnames):
     return {'header': header, 'pool': pool, 'events': events}
 
 
-def _gen_pair_plan(S, index, header, opnames):
+def _gen_pair_plan(S, index, header, opnames, tier='quick'):
     n = len(opnames)
     k, rest = divmod(index, n * n)
     i, j = divmod(rest, n)
@@ -682,7 +709,7 @@ def _gen_pair_plan(S, index, header, opnames):
         rh = f'R{nres}'
         nres += 1
         events.append({'act': 'call', 'client': c, 'op': name, 'args': args, 'out': rh, 'twin_first': S.coin(0.5),
-                       'pristine': c == 1 and S.coin(0.25)})
+                       'pristine': c == 1 and S.coin(0.25 if tier == 'quick' else 0.9)})
         W['results'][rh] = name
         if o.lazy:
             events.append({'act': 'drain', 'client': c, 'lazy': rh})
